@@ -1043,8 +1043,9 @@ func isCmdList(t types.Type) bool {
 // merged-in part is added to one of the result lists on every path through
 // the loop body: no `continue`, no de-duplication, no filter.
 func ruleEveryLineKept(p *Prog, r *Report) {
-	r.rule("R18.7", "Every line of a merged-in ACL part is kept: in cisco.mergeASAACLs and cisco.mergeIOSACLs the loop over the lines of the merged-in part (ab.bCmds / the sub-commands of its first command) reaches, on every path through its body, an append of the current line to one of the result lists. (ACL lines are never merged with or dropped in favour of an existing line: lines that look alike after object-group names were replaced by placeholders can differ in their groups.)")
-	for _, spec := range [][2]string{{"cisco.mergeASAACLs", "bCmds"}, {"cisco.mergeIOSACLs", "cisco.cmd.sub"}} {
+	r.rule("R18.7", "Every element of a merged-in part is kept: in cisco.mergeASAACLs and cisco.mergeIOSACLs (ACL lines), the PAN-OS and Linux MergeSpoc (rules) and the NSX MergeSpoc (policies) the loop over the elements of the merged-in part reaches, on every path through its body, an append / slices.Insert of the current element (or of the list it carries) to a result list. (ACL lines are never merged with or dropped in favour of an existing line: lines that look alike after object-group names were replaced by placeholders can differ in their groups.)")
+	for _, spec := range [][2]string{{"cisco.mergeASAACLs", "bCmds"}, {"cisco.mergeIOSACLs", "cisco.cmd.sub"},
+		{"(*panos.PanConfig).MergeSpoc$1", "panos.panVsys.Rules"}, {"(*nsx.NsxConfig).MergeSpoc", "nsx.NsxConfig.Policies"}, {"(*linux.config).MergeSpoc", "linux.chain.rules"}} {
 		name, src := spec[0], spec[1]
 		fn := p.Fn(name)
 		if fn == nil {
@@ -1059,8 +1060,47 @@ func ruleEveryLineKept(p *Prog, r *Report) {
 					continue
 				}
 				ia, ok := elem.X.(*ssa.IndexAddr)
-				if !ok || !strings.HasSuffix(typeShort(elem.Type()), "cisco.cmd") || !strings.Contains(descValue(ia.X, 0), src) {
+				if !ok || !strings.Contains(descValue(ia.X, 0), src) {
 					continue
+				}
+				if _, est := structOf(elem.Type()); est == nil {
+					continue
+				}
+				// only elements of the merged-in side: outside package cisco the slice must not
+				// be reached from the first parameter / receiver (the side merged into)
+				if !strings.HasPrefix(name, "cisco.") {
+					var base func(v ssa.Value, d int) ssa.Value
+					base = func(v ssa.Value, d int) ssa.Value {
+						if d > 12 {
+							return v
+						}
+						switch x := v.(type) {
+						case *ssa.UnOp:
+							return base(x.X, d+1)
+						case *ssa.FieldAddr:
+							return base(x.X, d+1)
+						case *ssa.Field:
+							return base(x.X, d+1)
+						case *ssa.IndexAddr:
+							return base(x.X, d+1)
+						case *ssa.Lookup:
+							return base(x.X, d+1)
+						case *ssa.Extract:
+							return base(x.Tuple, d+1)
+						case *ssa.Next:
+							return base(x.Iter, d+1)
+						case *ssa.Range:
+							return base(x.X, d+1)
+						case *ssa.Phi:
+							if len(x.Edges) > 0 {
+								return base(x.Edges[0], d+1)
+							}
+						}
+						return v
+					}
+					if pa, isP := base(ia.X, 0).(*ssa.Parameter); isP && len(fn.Params) > 0 && pa == fn.Params[0] {
+						continue
+					}
 				}
 				// index must be a loop variable: innermost loop containing the load
 				var h *ssa.BasicBlock
@@ -1073,10 +1113,19 @@ func ruleEveryLineKept(p *Prog, r *Report) {
 				if h == nil {
 					continue
 				}
-				if _, isPhi := ia.Index.(*ssa.Phi); !isPhi {
-					if bo, isB := ia.Index.(*ssa.BinOp); !isB || bo == nil {
-						continue
+				ownElem := false
+				if _, isPhi := ia.Index.(*ssa.Phi); isPhi {
+					ownElem = true
+				}
+				if bo, isB := ia.Index.(*ssa.BinOp); isB && bo.Op == token.ADD {
+					if _, isPhi := bo.X.(*ssa.Phi); isPhi {
+						if k, isK := constInt(bo.Y); isK && k == 1 {
+							ownElem = true // go/ssa: range index = phi + 1
+						}
 					}
+				}
+				if !ownElem {
+					continue // not the loop's own element (e.g. rules[i-1] of a backward search)
 				}
 				found++
 				keep := map[*ssa.BasicBlock]bool{}
@@ -1089,6 +1138,18 @@ func ruleEveryLineKept(p *Prog, r *Report) {
 						if !ok {
 							continue
 						}
+						if f := c.Common().StaticCallee(); f != nil && strings.HasPrefix(shortName(f), "slices.Insert") {
+							if el, ok := sliceLitElems(c.Common().Args[len(c.Common().Args)-1]); ok {
+								for _, e := range el {
+									for _, rt := range valueRoots(e) {
+										if rt == ssa.Value(elem) {
+											keep[b2] = true
+										}
+									}
+								}
+							}
+							continue
+						}
 						if bi, ok := c.Common().Value.(*ssa.Builtin); !ok || bi.Name() != "append" {
 							continue
 						}
@@ -1096,6 +1157,15 @@ func ruleEveryLineKept(p *Prog, r *Report) {
 							for _, e := range el {
 								if e == ssa.Value(elem) {
 									keep[b2] = true
+								}
+							}
+						} else {
+							// append(x, elem.field...): a list that belongs to the element
+							for _, rt := range valueRoots(c.Common().Args[1]) {
+								if u, ok := rt.(*ssa.UnOp); ok {
+									if fa, ok := u.X.(*ssa.FieldAddr); ok && fa.X == ssa.Value(elem) {
+										keep[b2] = true
+									}
 								}
 							}
 						}
